@@ -37,7 +37,7 @@ def expected_from_shexc(parsed, cfg):
             t = st['types'][0]
             if len(st['types']) > 1:        # a disjunction: one sh:or alternative per ShExC alternative
                 restr = "or:" + ";".join(sorted(one(x) for x in st['types']))
-            elif st['prop'] == cfg['inst_prop']:
+            elif st['prop'] == cfg['inst_prop'] and st['type_toks'][0].startswith('['):      # a value set [class]; without brackets the token is a datatype
                 restr = "in:" + t
             else:
                 restr = one(t)
@@ -86,7 +86,13 @@ def run(ctx):
     samples = []
     for i, (g, cfg) in enumerate(cases):
         try:
-            sh = Shaper(raw_graph=to_nt(g), input_format=C.NT, **impl.shaper_kwargs(cfg))
+            if i % 10 == 3 and not any(t[0][0] == 'B' or t[2][0] == 'B' for t in g):      # (rdflib relabels blank nodes: finding F-C19-1)
+                # the same statements as a Turtle document that declares prefixes of its own which clash with the caller's and with the
+                # default shapes prefix: the two serialisations must still name the same IRIs
+                ttl = "@prefix ex: <http://clash.example.org/a/> .\n@prefix : <http://clash.example.org/b/> .\n@prefix xsd: <http://clash.example.org/c#> .\n" + to_nt(g)
+                sh = Shaper(raw_graph=ttl, input_format=C.TURTLE, **impl.shaper_kwargs(cfg))
+            else:
+                sh = Shaper(raw_graph=to_nt(g), input_format=C.NT, **impl.shaper_kwargs(cfg))
             th = cfg['th'][0] / cfg['th'][1]
             res, hang = impl.guarded(lambda: (sh.shex_graph(string_output=True, acceptance_threshold=th, output_format=C.SHEXC),
                                               sh.shex_graph(string_output=True, acceptance_threshold=th, output_format=C.SHACL_TURTLE)))
@@ -144,8 +150,8 @@ def run(ctx):
                 fid = F.match(F.load("C05"), obs)
                 if not fid:
                     viol.append({"what": "sh:node object is not a declared sh:NodeShape", "object": o, **pipeline.case_json(g, cfg)})
-        # correspondence with Shacl.emit
-        if mres:
+        # correspondence with Shacl.emit (not for the Turtle variant: rdflib hands the statements over in its own order, so ties fall differently)
+        if mres and not (i % 10 == 3 and not any(t[0][0] == 'B' or t[2][0] == 'B' for t in g)):
             mshapes = {}
             cur = None
             for ln in mres.get("h%d" % i, []):
